@@ -295,7 +295,39 @@ func (s *story) inRoom() (stillIn bool) {
 			s.add(step{Op: "foreign"})
 		}
 	}
-	if r.Intn(4) == 0 {
+	if r.Intn(5) == 0 {
+		// Two or three Channel.Join calls on the one channel overlap (different
+		// goroutines).  The room answers each request by its id, in the order
+		// it saw them or the other way round; every call whose request was
+		// answered has to come back with nil.
+		s.shape = append(s.shape, 'O')
+		n := 2 + r.Intn(2)
+		var ls []string
+		for k := 0; k < n; k++ {
+			l := s.launch("rejoin")
+			s.steps[len(s.steps)-1].Opts = nil // (options would make the requests differ in address)
+			ls = append(ls, l)
+			s.add(step{Op: "seen", Label: l})
+		}
+		order := append([]string(nil), ls...)
+		if r.Intn(2) == 0 {
+			for i, j := 0, len(order)-1; i < j; i, j = i+1, j-1 {
+				order[i], order[j] = order[j], order[i]
+			}
+		}
+		// first answer whatever has been seen, in the chosen order …
+		for _, l := range order {
+			s.add(step{Op: "self", Label: l})
+		}
+		// … then see every call through: a request that only goes out once the
+		// call before it has finished is answered when it appears
+		for _, l := range ls {
+			s.add(step{Op: "seen", Label: l})
+			s.add(step{Op: "self", Label: l})
+			s.add(step{Op: "await", Label: l, Must: true})
+		}
+		s.add(step{Op: "barrier"})
+	} else if r.Intn(4) == 0 {
 		// re-synchronise while in the room
 		s.shape = append(s.shape, 'r')
 		if in := s.joinPhaseRejoin(); !in {
